@@ -212,7 +212,11 @@ DevDisconnectZombie ==
     /\ Is("disconnect") /\ Ev.slot \in Slots
     /\ On(Ev.slot) /\ IsReal(Ev.slot)
     /\ Ev.qbefore >= 2 /\ Queued(Ev.slot) >= 2
-    /\ seen' = [seen EXCEPT ![Ev.slot] = @ + 2]
+    (* the two swallowed events are the two oldest that were really buffered: under KeyAbort some *)
+    (* of the due events before them may never have been delivered                                *)
+    /\ \E m \in 0..(IF pan > 0 /\ KeyAbort \in AllowedKeys THEN Queued(Ev.slot) - 2 ELSE 0) :
+          /\ Cardinality({r \in (seen[Ev.slot] + 1)..(seen[Ev.slot] + 2 + m) : due[Ev.slot][r] \in risk}) >= m
+          /\ seen' = [seen EXCEPT ![Ev.slot] = @ + 2 + m]
     /\ zombie' = zombie \cup {Ev.slot}
     /\ UNCHANGED <<hlen, recent, lst, due, broken, log, jn, room, risk>>
     /\ Observe({})
